@@ -107,7 +107,7 @@ func Recv[T any](ch <-chan T) T {
 
 // Recv2 replaces v, ok := <-ch.
 func Recv2[T any](ch <-chan T) (T, bool) {
-	if !active || aborting {
+	if !running() {
 		v, ok := <-ch
 		return v, ok
 	}
@@ -128,6 +128,12 @@ func Recv2[T any](ch <-chan T) (T, bool) {
 	return zero, false
 }
 
+// running reports whether a controlled execution is active and not abandoned (read invisibly to the
+// race detector: the explorer resets these flags between executions).
+//
+//go:norace
+func running() bool { return active && !aborting }
+
 //go:norace
 func noteUnsupp(s string) {
 	if exUnsupp == "" {
@@ -137,7 +143,7 @@ func noteUnsupp(s string) {
 
 // Send replaces ch <- v. Only buffered channels are supported under the scheduler.
 func Send[T any](ch chan<- T, v T) {
-	if !active || aborting {
+	if !running() {
 		ch <- v
 		return
 	}
@@ -156,7 +162,7 @@ func Send[T any](ch chan<- T, v T) {
 
 // Close replaces close(ch).
 func Close[T any](ch chan<- T) {
-	if active && !aborting {
+	if running() {
 		p := *(*unsafe.Pointer)(unsafe.Pointer(&ch))
 		pointFull(KClose, p, nil, nil, 0)
 	}
